@@ -658,6 +658,7 @@ void eval_pending(World &W, const GPending &pd)
 // implied must be visible now
 void group_oracle_on_progress(World &W, int si)
 {
+	W.acting_for.erase(sim_self()); // back in its own state machine: whatever it was closing on behalf of a group is done
 	if (W.gpend.empty())
 		return;
 	sim_nopreempt_begin();
@@ -703,6 +704,7 @@ void group_oracle_on_status(World &W, const struct rtr_mgr_group *group, int sta
 				GPending pd{1, sim_self(), si, g->pref, 0};
 				pd.epoch = g->est_epoch;
 				W.gpend.push_back(pd);
+				W.acting_for[sim_self()] = g->pref;
 			}
 	}
 	if (status == RTR_MGR_CLOSED) {
@@ -724,6 +726,11 @@ void group_oracle_on_status(World &W, const struct rtr_mgr_group *group, int sta
 		for (auto &pd : W.gpend)
 			if (pd.kind == 1 && pd.task == sim_self() && pd.pref < g->pref)
 				ok = true;
+		// (the establishing group may itself have been reported CLOSED meanwhile, its thread still being busy here:
+		// rtr_stop reports before it joins)
+		auto af = W.acting_for.find(sim_self());
+		if (af != W.acting_for.end() && af->second < g->pref)
+			ok = true;
 		W.ctx.count("probe_group_closed_by_failover");
 		if (!ok)
 			W.ctx.viol("C15", "closed-without-better-group", "C15:failover:closed-on-behalf-of-less-preferred",
@@ -748,6 +755,21 @@ void group_oracle_on_status(World &W, const struct rtr_mgr_group *group, int sta
 		}
 		// only a real socket error triggers the start (not CONNECTING reports of a group already in ERROR)
 		int st = (int)W.socks[(size_t)si].state;
+		// a group that another thread is still shutting down at this very moment (reported CLOSED, thread not yet joined)
+		// cannot be started: two manager actions overlapping at a blocking join are outside what C15 quantifies over
+		auto being_shut_down = [&](int pref) {
+			GInfo *og = ginfo_of(W, pref);
+			if (!og)
+				return false;
+			for (int s2 : og->socks)
+				if (W.socks[(size_t)s2].thread_id != 0 && (W.peers[(size_t)s2].stopping || W.socks[(size_t)s2].state == RTR_SHUTDOWN))
+					return true;
+			return false;
+		};
+		if ((best >= 0 && being_shut_down(best)) || (best2 >= 0 && being_shut_down(best2))) {
+			W.ctx.count("probe_failover_target_being_shut_down");
+			best = best2 = -1;
+		}
 		if ((best >= 0 || best2 >= 0) && (st == RTR_ERROR_FATAL || st == RTR_ERROR_TRANSPORT || st == RTR_ERROR_NO_DATA_AVAIL)) {
 			GPending pd{2, sim_self(), si, g->pref, best >= 0 ? best : best2};
 			pd.expect2 = best2;
@@ -1994,6 +2016,7 @@ void run_world(const J &plan, RunCtx &ctx)
 				sim_log(EV_USER, 7, oi);
 				if (k == "stop") {
 					W.oper_busy = true;
+					g_teardown_only = true; /* limits reached while an operator call is blocked inside the library are not findings */
 					// (rtr_stop joins the socket thread, which may sit in a non-cancellable retry sleep of any length the
 					// cache was allowed to set; sockets stopped later keep polling meanwhile: step / time limits reached while
 					// an operator stop is blocked are not findings)
@@ -2011,6 +2034,7 @@ void run_world(const J &plan, RunCtx &ctx)
 						rtr_mgr_stop(W.conf);
 					}
 					W.oper_busy = false;
+					g_teardown_only = false;
 					for (auto &g : W.ginfo)
 						g.status = RTR_MGR_CLOSED;
 					W.gpend.clear();
@@ -2048,8 +2072,10 @@ void run_world(const J &plan, RunCtx &ctx)
 						ng.preference = (uint8_t)pref;
 						bool dup = ginfo_of(W, pref) != nullptr;
 						W.oper_busy = true;
+					g_teardown_only = true; /* limits reached while an operator call is blocked inside the library are not findings */
 						int r2 = rtr_mgr_add_group(W.conf, &ng);
 						W.oper_busy = false;
+					g_teardown_only = false;
 						if (dup && r2 == RTR_SUCCESS)
 							ctx.viol("C15", "add-accepts-duplicate-preference", "C15:add:duplicate-preference-accepted",
 								 "rtr_mgr_add_group accepted preference %d which is already in use", pref);
@@ -2081,6 +2107,7 @@ void run_world(const J &plan, RunCtx &ctx)
 					for (auto &x : W.ginfo)
 						live += !x.removed;
 					W.oper_busy = true;
+					g_teardown_only = true; /* limits reached while an operator call is blocked inside the library are not findings */
 					if (g)
 						g->removing = true;
 					g_teardown_only = true;
@@ -2089,6 +2116,7 @@ void run_world(const J &plan, RunCtx &ctx)
 					if (g)
 						g->removing = false;
 					W.oper_busy = false;
+					g_teardown_only = false;
 					if (live <= 1 && r2 == RTR_SUCCESS)
 						ctx.viol("C15", "last-group-removed", "C15:remove:last-group-removed", "rtr_mgr_remove_group removed the last remaining group (%d)", pref);
 					else if (live > 1 && g && r2 != RTR_SUCCESS)
@@ -2190,6 +2218,7 @@ void run_world(const J &plan, RunCtx &ctx)
 	W.gpend.clear();
 	if (!stopped) {
 		W.oper_busy = true;
+					g_teardown_only = true; /* limits reached while an operator call is blocked inside the library are not findings */
 		g_teardown_only = true;
 		rtr_mgr_stop(W.conf);
 		g_teardown_only = false;
